@@ -19,6 +19,23 @@ for o in ["OneComplOp", "ShLeftOp", "ShRightOp", "BitMirrorOp", "BinAndOp", "Bin
 for o in ["MultOp", "SubOp", "AddOp", "DivOp", "EqOp", "UneqOp", "GtOp", "LtOp", "GeOp", "LeOp"]:
     op(o, entry=o + "_f", defs=["-DVERIF_OPT_FLOAT"], fn=o)
 
+FUNCS = "harness/C08/functions.c"
+def fn(name, entry=None, defs=None, unwind=None, link=None, **kw):
+    GROUPS.append(G("fn_" + (entry or name), FUNCS, "h_" + (entry or name), enforce=[name],
+                    link=link or ["tempresult.c", "bpemu.c"], stubs=STUBS, defs=defs or [], unwind=unwind,
+                    timeout=kw.pop("timeout", 120), **kw))
+fn("FuncBITCNT", unwind=66)
+fn("FuncFIRSTBIT", unwind=66)
+fn("FuncLASTBIT", unwind=66)
+fn("FuncABS"); fn("FuncSGN")
+fn("FuncABS", entry="FuncABS_f", defs=["-DVERIF_OPT_FLOAT"]); fn("FuncSGN", entry="FuncSGN_f", defs=["-DVERIF_OPT_FLOAT"])
+fn("FuncTOUPPER"); fn("FuncTOLOWER"); fn("FuncEXPRTYPE")
+fn("FuncSTRLEN", link=["tempresult.c", "bpemu.c", "nonzstring.c"])
+fn("FuncCHARFROMSTR", link=["tempresult.c", "bpemu.c", "nonzstring.c"], unwind=12)
+fn("FuncBITPOS", replace=["SingleBit"])
+GROUPS.append(G("pars_SingleBit", "harness/C08/asmpars_kernels.c", "h_SingleBit", enforce=["SingleBit"],
+                link=["bpemu.c"], stubs=STUBS, unwind=66, timeout=300))
+
 # witness of the recorded finding C08_SHR_NEG (expected to fail while it is open)
 GROUPS.append(G("op_ShRightOp:finding", OPS, "h_ShRightOp", enforce=["ShRightOp"], link=LINK, stubs=STUBS,
                 only_finding="C08_SHR_NEG", timeout=120))
